@@ -5,6 +5,7 @@ import (
 	"fmt"
 	"regexp"
 	"sort"
+	"strings"
 	"unicode/utf8"
 
 	cedar "github.com/cedar-policy/cedar-go"
@@ -269,6 +270,65 @@ func noTextForm(j J) string {
 					why = "unknown function " + ascii(fn)
 				case extMethods[fn] && len(args) == 0:
 					why = "method call without receiver"
+				}
+			}
+			for _, v := range t {
+				walk(v)
+			}
+		case []any:
+			for _, v := range t {
+				walk(v)
+			}
+		}
+	}
+	walk(j)
+	if why == "" {
+		why = oddNames(j)
+	}
+	return why
+}
+
+var identRe = regexp.MustCompile(`^[A-Za-z_][A-Za-z0-9_]*$`)
+var reservedWords = map[string]bool{"true": true, "false": true, "if": true, "then": true, "else": true, "in": true, "like": true,
+	"has": true, "is": true, "__cedar": true}
+
+func pathOK(ty string) bool {
+	for _, part := range strings.Split(ty, "::") {
+		if !identRe.MatchString(part) || reservedWords[part] {
+			return false
+		}
+	}
+	return true
+}
+
+// oddNames: entity types that are not identifier paths, annotation keys that are not identifiers.  A program can put
+// them into an AST; whether a DECODER may accept them is another matter (see opPJSON).
+func oddNames(j J) string {
+	why := ""
+	var walk func(j J)
+	walk = func(j J) {
+		switch t := j.(type) {
+		case Obj:
+			if ty, ok := t["ty"].(string); ok {
+				if name, err := cwf.NameFromWire(ty); err != nil || !pathOK(name) {
+					why = "odd name: entity type is not a path"
+				}
+			}
+			if parts, ok := t["ty"].([]any); ok {
+				for _, p := range parts {
+					if s, _ := p.(string); !pathOK(s) {
+						why = "odd name: entity type is not a path"
+					}
+				}
+			}
+			if annos, ok := t["annos"].([]any); ok {
+				for _, a := range annos {
+					if ao, ok := a.(Obj); ok {
+						k, _ := ao["k"].(string)
+						if name, err := cwf.NameFromWire(k); err != nil || !identRe.MatchString(name) {
+							why = "odd name: annotation key is not an identifier"
+						}
+					}
 				}
 			}
 			for _, v := range t {
